@@ -51,9 +51,13 @@ def feat_key(f, i):
 def feature_table(rec):
     """{key: (type, id, qualifiers-as-plain, parts or None)}; key = uid qualifier when present else index"""
     out = {}
+    keys = [feat_key(f, i) for i, f in enumerate(rec.features)]
     for i, f in enumerate(rec.features):
         q = {k: (list(v) if isinstance(v, (list, tuple)) else v) for k, v in (f.qualifiers or {}).items()}
-        out[feat_key(f, i)] = (f.type, f.id, q, None if f.location is None else parts_of(f.location))
+        # a uid carried by several features (the same annotation listed twice) identifies none of them: those are
+        # matched like unlabelled features, as a multiset
+        key = keys[i] if keys.count(keys[i]) == 1 else ("idx", i)
+        out[key] = (f.type, f.id, q, None if f.location is None else parts_of(f.location))
     return out
 
 
